@@ -25,12 +25,13 @@ BASE_EVENTS = ([("S", n) for n in NAMES] + [("Sp", n) for n in NAMES] + [("F", n
     [("I", n) for n in NAMES] + [("Q1", ""), ("CS", "")] + [("Qn", n) for n in NAMES] +
     [("V", n) for n in NAMES] + [("S0", "")])
 CLONE_KINDS = ("cs", "css", "csa", "cf", "ci")
+DERIVE_KINDS = ("ctc", "cts", "ctx")  # coordinates_transform of an earlier system to cyl / sph / cart
 INTERNAL = re.compile(r"(SYM|FUN|QTY|SYS|VEC)\d+")
 PRIMES = [2, 3, 5, 7, 11, 13, 17]
 
 
 def descriptor(ev: tuple, objs_desc: list) -> tuple:
-    if ev[0] in CLONE_KINDS:
+    if ev[0] in CLONE_KINDS or ev[0] in DERIVE_KINDS:
         return (ev[0], objs_desc[ev[1]])
     return ev
 
@@ -44,6 +45,9 @@ def successors(state: tuple) -> list[tuple]:
         kind = e[0]
         if kind in ("S", "Sp", "I", "S0") or kind in ("cs", "css", "csa", "ci"):
             for c in CLONE_KINDS:
+                out.append(state + ((c, i), ))
+        if kind == "CS" or kind in DERIVE_KINDS:
+            for c in DERIVE_KINDS:
                 out.append(state + ((c, i), ))
     return out
 
@@ -107,6 +111,12 @@ def realise(state: tuple) -> list[dict]:
             rec["named"] = False
         elif kind == "V":
             rec["obj"] = VectorSymbol(ev[1], U.force)
+        elif kind in DERIVE_KINDS:
+            from symplyphysics import coordinates_transform
+            S = CoordinateSystem.System
+            target = {"ctc": S.CYLINDRICAL, "cts": S.SPHERICAL, "ctx": S.CARTESIAN}[kind]
+            rec["obj"] = coordinates_transform(objs[ev[1]]["obj"], target)
+            rec["named"] = False
         else:
             src = objs[ev[1]]
             rec["src"] = src
@@ -134,7 +144,7 @@ def term_of(rec: dict) -> Optional[Any]:
         return o(t)
     if k in ("I", "ci"):
         return o[o.index]
-    if k == "CS":
+    if k == "CS" or k in DERIVE_KINDS:
         return o.coord_system.base_scalars()[0]
     if k == "V":
         return None
@@ -150,7 +160,7 @@ def _valued(e: Any) -> Any:
 
 def internal_name(rec: dict) -> str:
     o = rec["obj"]
-    if rec["kind"] == "CS":
+    if rec["kind"] == "CS" or rec["kind"] in DERIVE_KINDS:
         return str(o.coord_system)
     return str(getattr(o, "name", o))
 
@@ -164,7 +174,10 @@ def check_state(state: tuple) -> list[str]:
     # 1. pairwise distinct
     for (i, a), (j, b) in itertools.combinations(enumerate(objs), 2):
         oa, ob = a["obj"], b["obj"]
-        if oa is ob or (a["kind"] != "CS" and b["kind"] != "CS" and oa == ob):
+        csk = ("CS", ) + DERIVE_KINDS
+        if a["kind"] in csk and b["kind"] in csk and oa.coord_system == ob.coord_system:
+            errs.append(f"coordinate systems {i} and {j} compare equal")
+        if oa is ob or (a["kind"] not in csk and b["kind"] not in csk and oa == ob):
             errs.append(f"objects {i} ({a['kind']}) and {j} ({b['kind']}) are equal")
         if internal_name(a) == internal_name(b):
             errs.append(f"objects {i} and {j} share the internal name {internal_name(a)}")
@@ -227,7 +240,7 @@ def check_state(state: tuple) -> list[str]:
             if INTERNAL.search(text):
                 errs.append(f"{pname} shows an internal name: {short(text, 120)}")
             for i, r in named:
-                if r["kind"] == "CS":
+                if r["kind"] == "CS" or r["kind"] in DERIVE_KINDS:
                     continue
                 o = r["obj"]
                 want = o.display_latex if pname == "latex_str" else o.display_name
